@@ -125,6 +125,13 @@ func (r *Recorder) Known(id, signature, message string) {
 	r.Findings = append(r.Findings, Finding{Property: r.Property, Id: id, Signature: signature, Message: message})
 }
 
+// KnownCount reports how many catalogued findings have been observed so far.
+func (r *Recorder) KnownCount() int {
+	r.mu.Lock()
+	defer r.mu.Unlock()
+	return len(r.Findings)
+}
+
 // Violation records a violation with its replay file.
 func (r *Recorder) Violation(signature, replay, message string) {
 	r.mu.Lock()
